@@ -415,7 +415,7 @@ impl Tree {
     fn build(&self, next: &mut usize, polish: &mut Vec<String>) -> Expression {
         match self {
             Tree::Atom => {
-                let k = *next;
+                let k = *next % 26;
                 *next += 1;
                 polish.push(format!("A{}", k));
                 Expression::identifier(((b'a' + k as u8) as char).to_string())
